@@ -268,6 +268,32 @@ def gen_cfg(rng, shape, Sn, Kn):
     return {"shape": shape, "ends": ends, "dims": ds}
 
 
+def gen_beyond(rng, shape, Sn, Kn):
+    """an infinite end point on one side and every finite end point on the OTHER side of all the data, so that the
+    `other end` term of min/max(data, other end) -+ 1 decides the replacement (the weight vanishes on the data range)"""
+    n = 2 if shape == "rect" else 4
+    left_inf = rng.random() < 0.5
+    fin = draw_sorted(rng, n // 2, lo=-6, hi=6)
+    if shape == "rect":
+        ends = [-INF, fin[0]] if left_inf else [fin[0], INF]
+    else:
+        ends = [-INF, -INF, fin[0], fin[1]] if left_inf else [fin[0], fin[1], INF, INF]
+    off = lambda: rng.choice([0.0, 0.5, 1.0, 1.5, 3.0])
+    if left_inf:
+        base = fin[-1]
+        fc = np.array([[base + off() for _ in range(Kn)] for _ in range(Sn)])
+        ob = np.array([[base + off() for _ in range(Kn)] for _ in range(Sn)])
+    else:
+        base = fin[0]
+        fc = np.array([[base - off() for _ in range(Kn)] for _ in range(Sn)])
+        ob = np.array([[base - off() for _ in range(Kn)] for _ in range(Sn)])
+    dims = [()] * n
+    if rng.random() < 0.4:       # the same end points as arrays over s
+        ends = [[e] * Sn for e in ends]
+        dims = [("s",)] * n
+    return {"shape": shape, "ends": ends, "dims": dims}, fc, ob
+
+
 def gen_malformed(rng, shape):
     """end points that `_auxiliary_funcs` must reject with ValueError"""
     if shape == "rect":
@@ -470,6 +496,8 @@ def pipeline_batches(ctx, n_batches, malformed_share=0.12):
         else:
             cfg = gen_cfg(rng, shape, Sn, Kn)
         fc, ob = gen_data(rng, cfg, Sn, Kn, extra=[v + s * huber for v in finite_ends(cfg)[:2] for s in (-1, 1)])
+        if not malformed and rng.random() < 0.15:
+            cfg, fc, ob = gen_beyond(rng, shape, Sn, Kn)
         if rng.random() < 0.04:
             fc[:] = NAN
         out.append((cfg, fc, ob, alpha, huber, malformed))
